@@ -191,6 +191,10 @@ func (c *ScalarCase) prepare() func() error {
 		for _, o := range c.Others {
 			if c.Carrier == "mapiface" {
 				m.SetMapIndex(reflect.ValueOf(o[0]), reflect.ValueOf(o[1]))
+			} else if o[1] != "" {
+				m.SetMapIndex(reflect.ValueOf(o[0]), v) // an entry no rule mentions, holding the same value
+			} else {
+				m.SetMapIndex(reflect.ValueOf(o[0]), reflect.Zero(et))
 			}
 		}
 		src := c.viaPtr(m)
